@@ -48,6 +48,44 @@ def run(ctx):
     items = build_items(ctx, rnd)
     results = common.pmap(speccheck.obligation, items, ctx.workers, extra=(N, live))
     summarise(ctx, results, N, live, 'gl')
+    # lists: exclusions behave as if DOTGLOB were set, inclusions of the same call do not - whatever their order and however the
+    # list is written (list, SPLIT, BRACE, NEGATEALL): the C07 obligation restricted to hidden names
+    from props import c07
+    from wcmatch import fnmatch as F, glob as G
+    litems = []
+    for mode, m in (('fn', F), ('gl', G)):
+        E = m.EXTMATCH if mode == 'fn' else (m.EXTGLOB | m.GLOBSTAR)
+        Nf, A, SP, B, MN = m.NEGATE, m.NEGATEALL, m.SPLIT, m.BRACE, m.MINUSNEGATE
+        for inc, exc in ((['*'], ['a*']), (['?*', '.b*'], ['*a']), (['*'], ['.*']), (['[!x]*'], ['.a']), (['@(*)'], ['*b']), (['*', '*/*'] if mode == 'gl' else ['*'], ['b*'])):
+            for order in (inc + ['!' + e for e in exc], ['!' + e for e in exc] + inc):
+                litems.append((mode, 'hidden_list_order', E | Nf, (order, None), inc, exc, False))
+                litems.append((mode, 'hidden_split_order', E | Nf | SP, ('|'.join(order), None), inc, exc, False))
+            litems.append((mode, 'hidden_exclude_kw', E, (inc, exc), inc, exc, False))
+            litems.append((mode, 'hidden_negateall', E | Nf | A, (['!' + e for e in exc], None), [], exc, True))
+            litems.append((mode, 'hidden_minus', E | Nf | MN, (['-' + e for e in exc] + inc, None), inc, exc, False))
+        litems.append((mode, 'hidden_brace', E | Nf | B, ('{!a,}*', None), ['*'], ['a*'], False))
+    lres = common.pmap(c07.work, litems, ctx.workers, extra=(N, True))
+    nl = 0
+    for r in lres:
+        nl += r['sat'] + r['unsat'] + r['unknown']
+        st = r['status']
+        mode, form, flags, lhs, incs, excs, neg_all = r['item']
+        if st in ('ok', 'compile_raises', 'translate_len'):
+            continue
+        if st != 'differs':
+            ctx.inconclusive.append({'why': 'C03 list obligation: ' + st, 'item': r['item'], 'detail': r.get('exc')})
+            continue
+        pats, excl = lhs
+        kw = {'flags': flags}
+        if excl is not None:
+            kw['exclude'] = excl
+        common.confirm(ctx, {'describe': f'C03 {form}: on the hidden name {r["witness"]!r} the list {pats!r} (exclude={excl!r}) does not behave as its inclusions without '
+                                         f'DOTGLOB and its exclusions with DOTGLOB',
+                             'steps': [{'as': 'lhs', 'call': 'engine.replayfn.matcher_accepts', 'args': [mode, pats, r['witness'], kw]},
+                                       {'as': 'rhs', 'call': 'engine.replayfn.decomposed_accepts', 'args': [mode, incs, excs, r['witness'], c07.singles_flags(mode, flags), bool(neg_all)]}],
+                             'assert': 'lhs == rhs'})
+    ctx.coverage['hidden_list_obligations'] = {'items': len(litems), 'queries': nl}
+    ctx.coverage['evaluations'] = ctx.coverage.get('evaluations', 0) + nl
     match_cov = dict(ctx.coverage)
     # walk side (E3): glob() / WcMatch results on symbolic trees containing dot entries and hidden links
     from engine import fsdriver
